@@ -397,7 +397,22 @@ def run(ck: Check, prog: Program) -> None:
     from .common import dispatcher_program, dispatchers
     from .dfacts import batch_facts
     dprog = dispatcher_program(prog)
-    for r_ in dispatchers(dprog):
+    # (c) named and positional notations reach the function alike: the binder hands over exactly the caller's arguments
+    from .c04 import _bind_strict
+    _bind_strict(ck, prog)
+    # (d) an exception raised by the method reaches the caller as the same class in every configuration: protocol errors verbatim,
+    #     anything else as ServerError (the dispatcher's error mapping, C03 rule reused)
+    from . import c01 as _c01
+    from .dfacts import errmap_facts
+    _roles = dispatchers(dprog)
+    _interp = _c01.make_interp(dprog, _roles)
+    for r_ in _roles:
+        _, ep = errmap_facts(dprog, _interp, r_)
+        bad = [p_ for p_ in ep if p_[0] in ('ERRMAP', 'VERBATIM')]
+        ck.ob('ERROR-CLASS', f'{r_.cls.name}: method failures are mapped to the protocol error classes the client raises', not bad)
+        for rule, construct, line, msg in bad:
+            ck.finding('ERROR-CLASS', r_.handle_rpc_method.qualname, construct, r_.dispatch.module.rel, line, msg)
+    for r_ in _roles:
         ck.functions.add(r_.dispatch.qualname)
         _, bp = batch_facts(dprog, r_)
         bad = [p_ for p_ in bp if p_[0] == 'ORDER-MAP']
